@@ -213,10 +213,11 @@ def coq_exprs(c, R):
     # free-running prefix: rounding differences between two float evaluations of CG (here: summation order)
     # grow like loss of orthogonality, roughly eps * (3 sqrt(kappa))^k; compare while that stays below 1e-8
     kap = kappa_eff(R["A"], R["P"])
+    r0 = o[0]["resid"] or 1.0
     kfree = 0
     for k in range(1, len(o)):
-        if o[k]["npd"] or growth_limit(kap, k) > 1e-8:
-            break
+        if o[k]["npd"] or growth_limit(kap, k) > 1e-8 or o[k - 1]["resid"] < 1e-5 * r0:
+            break        # (once the residual is at rounding level, exact zeros / breakdowns differ between float evaluations)
         kfree = k
     free = "chk_cg_free %s %s %s [%s]" % (common, tols(1e-6, 1e-6), obs_lit(o[0]),
                                           "; ".join(obs_lit(v) for v in o[1:kfree + 1]))
